@@ -401,6 +401,16 @@ def run_for(rep, tier, seed, pid):
 def judge_filtered(rep, trace, n, sig_of):
     """like judge.judge, but a reject whose clauses all belong to the other property is not a violation here"""
     from .. import tlc as _tlc
+    from .. import judge as _judge
+    chunks = _judge.split_trace(trace)
+    if chunks:
+        if sum(k for _, k in chunks) != n:
+            raise MachineryError("trace has %d records, expected %d" % (sum(k for _, k in chunks), n))
+        tot = 0
+        for path, k in chunks:
+            tot += judge_filtered(rep, path, k, sig_of) or 0
+            os.unlink(path)
+        return tot
     res = _tlc.run_tlc("Trace_Validate", "Trace_Validate.cfg", workers=2, env={"TRACE_FILE": trace}, timeout=3000, heap="6g")
     rep.add_tlc("Trace_Validate", res)
     if res.distinct != n + 65:
